@@ -236,7 +236,7 @@ def rule_R1(ctx):
     hay = {x[1] for x in T.params_in(args[0])}
     needle = {x[1] for x in T.params_in(args[1])}
     good = hay == {0} and needle == {1}
-    ctx.check(good, "R1", "distance_expsw:direction",
+    ctx.check(good, "R1", "distance_expsw:direction" + ("" if good else ":haystack=%s,needle=%s" % ("+".join(map(str, sorted(hay))), "+".join(map(str, sorted(needle))))),
               "observed string is searched for the signature's substring",
               "containment is inverted: haystack originates from %s and needle from %s; the signature's expected substring must be "
               "searched *in* the observed User-Agent/Server string (a real `curl/7.24.0 (x86_64)` vs signature `curl/` scores Bad)"
